@@ -322,7 +322,9 @@ def replace_pattern_in_structure(
             new_atoms = replace_pattern.copy()
             new_atoms.positions = q.apply(new_atoms.positions)
             new_atoms.translate(atom_positions[0])
-            new_atoms.positions %= np.diag(new_structure.cell)
+            # wrap into the unit cell in fractional coordinates, so that this is a lattice translation for any cell
+            cell = new_structure.cell
+            new_atoms.positions = (new_atoms.positions.dot(np.linalg.inv(cell)) % 1.0).dot(cell)
 
             if verbose:
                 print("new atoms after translate:\n", new_atoms.positions)
